@@ -62,6 +62,7 @@ structure S (σ : Type) where
   /-- `return nil, err` happened -/
   failed : Bool
 
+section Sig
 variable {σ : Type} [DecidableEq σ]
 
 /-! ## the loops of `iterBeforeUntil` -/
@@ -319,9 +320,7 @@ theorem epochLoop_sim (limit : Nat) (before untl : Option σ) (e : Nat) (recs : 
           rw [ih _ hstop' (fun hn => recLoop_reached _ _ _ _ _ _ (hb hn))]
           exact recLoop_sim _ _ _ _ _ _ _ hs hb
 
-/-- no lookup failed with an error other than not-found -/
-def NoFailure (hs : Hist σ) : Prop := ∀ h ∈ hs, ∀ recs, h.2 = Lookup.found recs ∨ h.2 = Lookup.notFound
-
+/-- the lookup failed with an error other than not-found -/
 def isFailed : Lookup σ → Bool
   | .failed => true
   | _ => false
@@ -385,5 +384,394 @@ theorem iterBeforeUntil_eq_spec (hs : Hist σ) (limit : Int) (before untl : Opti
     cases before with
     | none => simp [fin, start, dropAfter]
     | some b => simp [fin, start]
+
+/-! ## facts about the slice -/
+
+theorem dropAfter_sublist (b : Option σ) (l : Tagged σ) : (dropAfter b l).Sublist l := by
+  cases b with
+  | none => simp [dropAfter]
+  | some b =>
+    induction l with
+    | nil => exact List.Sublist.refl _
+    | cons x xs ih =>
+      simp only [dropAfter]
+      split
+      · exact List.sublist_cons_self ..
+      · exact List.Sublist.cons _ ih
+
+theorem takeThrough_sublist (u : Option σ) (l : Tagged σ) : (takeThrough u l).Sublist l := by
+  cases u with
+  | none => simp [takeThrough]
+  | some u =>
+    induction l with
+    | nil => exact List.Sublist.refl _
+    | cons x xs ih =>
+      simp only [takeThrough]
+      split
+      · exact List.Sublist.cons_cons _ (List.nil_sublist _)
+      · exact List.Sublist.cons_cons _ ih
+
+theorem specL_sublist (l : Tagged σ) (limit : Int) (before untl : Option σ) :
+    (specL l limit before untl).Sublist l :=
+  ((List.take_sublist _ _).trans (takeThrough_sublist _ _)).trans (dropAfter_sublist _ _)
+
+/-- `before` given but not in the history: everything is dropped -/
+theorem dropAfter_absent (b : σ) (l : Tagged σ) (h : ∀ x ∈ l, x.2.sig ≠ b) : dropAfter (some b) l = [] := by
+  induction l with
+  | nil => rfl
+  | cons x xs ih =>
+    have hx : ¬ x.2.sig = b := h x List.mem_cons_self
+    simp only [dropAfter, hx, if_false]
+    exact ih (fun y hy => h y (List.mem_cons_of_mem _ hy))
+
+/-- `until` given but not met: nothing is cut -/
+theorem takeThrough_absent (u : σ) (l : Tagged σ) (h : ∀ x ∈ l, x.2.sig ≠ u) : takeThrough (some u) l = l := by
+  induction l with
+  | nil => rfl
+  | cons x xs ih =>
+    have hx : ¬ x.2.sig = u := h x List.mem_cons_self
+    simp only [takeThrough, hx, if_false]
+    rw [ih (fun y hy => h y (List.mem_cons_of_mem _ hy))]
+
+def sigs (l : Tagged σ) : List σ := l.map fun x => x.2.sig
+
+theorem dropAfter_index (l : Tagged σ) (i : Nat) (hi : i < l.length) (hd : (sigs l).Nodup) :
+    dropAfter (some (l[i]).2.sig) l = l.drop (i + 1) := by
+  induction l generalizing i with
+  | nil => simp at hi
+  | cons x xs ih =>
+    cases i with
+    | zero => simp [dropAfter]
+    | succ i =>
+      have hi' : i < xs.length := by simpa using hi
+      have hd' : (sigs xs).Nodup := by
+        simp only [sigs, List.map_cons, List.nodup_cons] at hd; exact hd.2
+      have hx : ¬ x.2.sig = (xs[i]).2.sig := by
+        simp only [sigs, List.map_cons, List.nodup_cons] at hd
+        intro hx
+        exact hd.1 (by rw [hx]; exact List.mem_map.mpr ⟨xs[i], List.getElem_mem _, rfl⟩)
+      simp only [List.getElem_cons_succ, dropAfter, hx, if_false, List.drop_succ_cons]
+      exact ih i hi' hd'
+
+theorem takeThrough_index (l : Tagged σ) (j : Nat) (hj : j < l.length) (hd : (sigs l).Nodup) :
+    takeThrough (some (l[j]).2.sig) l = l.take (j + 1) := by
+  induction l generalizing j with
+  | nil => simp at hj
+  | cons x xs ih =>
+    cases j with
+    | zero => simp [takeThrough]
+    | succ j =>
+      have hj' : j < xs.length := by simpa using hj
+      have hd' : (sigs xs).Nodup := by
+        simp only [sigs, List.map_cons, List.nodup_cons] at hd; exact hd.2
+      have hx : ¬ x.2.sig = (xs[j]).2.sig := by
+        simp only [sigs, List.map_cons, List.nodup_cons] at hd
+        intro hx
+        exact hd.1 (by rw [hx]; exact List.mem_map.mpr ⟨xs[j], List.getElem_mem _, rfl⟩)
+      simp only [List.getElem_cons_succ, takeThrough, hx, if_false, List.take_succ_cons]
+      rw [ih j hj' hd']
+
+end Sig
+
+section Slot
+variable {σ : Type}
+
+/-! ## the slot-bounded variant `iterBeforeUntilSlot` (streaming)
+
+`fixed = false` is the pinned tree; `fixed = true` is the tree with `/verif/fixes/C07-2.patch`
+(`if tx.Slot >= int(before) { continue }`). -/
+
+def recLoopSlot (fixed : Bool) (limit before untl e : Nat) : List (Tx σ) → S σ → S σ
+  | [], s => s
+  | x :: rest, s =>
+    if x.slot < untl then { s with stop := true }
+    else if fixed = true ∧ before ≤ x.slot then recLoopSlot fixed limit before untl e rest s
+    else if limit ≤ s.acc.length then { s with stop := true }
+    else recLoopSlot fixed limit before untl e rest { s with acc := s.acc ++ [(e, x)] }
+
+def epochLoopSlot (fixed : Bool) (limit before untl e : Nat) : List (List (Tx σ)) → S σ → S σ
+  | [], s => s
+  | r :: rs, s =>
+    if limit ≤ s.acc.length then { s with stop := true }
+    else if r.isEmpty then s
+    else if (recLoopSlot fixed limit before untl e r s).stop then recLoopSlot fixed limit before untl e r s
+    else epochLoopSlot fixed limit before untl e rs (recLoopSlot fixed limit before untl e r s)
+
+/-- `slottools.CalcEpochForSlot` on naturals (tied to the translated Go function in Properties/C07) -/
+def epochOf (slot : Nat) : Nat := slot / Generated.epochLen
+
+def allEpochsSlot (fixed : Bool) (limit before untl : Nat) : Hist σ → S σ → S σ
+  | [], s => s
+  | (e, lk) :: hs, s =>
+    if epochOf before < e then allEpochsSlot fixed limit before untl hs s      -- `epochNum > beforeEpoch`
+    else match lk with
+      | .notFound => allEpochsSlot fixed limit before untl hs s
+      | .failed => { s with stop := true, failed := true }
+      | .found recs =>
+        if (epochLoopSlot fixed limit before untl e recs s).stop then epochLoopSlot fixed limit before untl e recs s
+        else allEpochsSlot fixed limit before untl hs (epochLoopSlot fixed limit before untl e recs s)
+
+def iterBeforeUntilSlot (fixed : Bool) (hs : Hist σ) (limit : Int) (before untl : Nat) : Except String (Tagged σ) :=
+  if limit ≤ 0 ∨ before < untl then .ok []
+  else if (allEpochsSlot fixed limit.toNat before untl hs (start none)).failed then .error "error while getting initial offset"
+  else .ok (allEpochsSlot fixed limit.toNat before untl hs (start none)).acc
+
+/-- the requested window: `until ≤ slot < before` (the streaming caller passes `endSlot+1` and `startSlot`) -/
+def inWin (before untl : Nat) (x : Nat × Tx σ) : Bool := decide (untl ≤ x.2.slot) && decide (x.2.slot < before)
+
+/-! ### soundness: only entries inside the window -/
+
+theorem recLoopSlot_mem (limit before untl e : Nat) (r : List (Tx σ)) (s : S σ) :
+    ∀ y ∈ (recLoopSlot true limit before untl e r s).acc, y ∈ s.acc ∨ inWin before untl y = true := by
+  induction r generalizing s with
+  | nil => intro y hy; exact Or.inl hy
+  | cons x rest ih =>
+    unfold recLoopSlot
+    split
+    · intro y hy; exact Or.inl hy
+    · split
+      · exact ih s
+      · split
+        · intro y hy; exact Or.inl hy
+        · rename_i h1 h2 h3
+          intro y hy
+          rcases ih _ y hy with h | h
+          · simp only [List.mem_append, List.mem_singleton] at h
+            rcases h with h | h
+            · exact Or.inl h
+            · right
+              subst h
+              have : ¬ before ≤ x.slot := fun hh => h2 ⟨rfl, hh⟩
+              simp [inWin]; omega
+          · exact Or.inr h
+
+theorem epochLoopSlot_mem (limit before untl e : Nat) (recs : List (List (Tx σ))) (s : S σ) :
+    ∀ y ∈ (epochLoopSlot true limit before untl e recs s).acc, y ∈ s.acc ∨ inWin before untl y = true := by
+  induction recs generalizing s with
+  | nil => intro y hy; exact Or.inl hy
+  | cons r rs ih =>
+    unfold epochLoopSlot
+    split
+    · intro y hy; exact Or.inl hy
+    · split
+      · intro y hy; exact Or.inl hy
+      · split
+        · exact recLoopSlot_mem _ _ _ _ _ _
+        · intro y hy
+          rcases ih _ y hy with h | h
+          · exact recLoopSlot_mem _ _ _ _ _ _ y h
+          · exact Or.inr h
+
+theorem allEpochsSlot_mem (limit before untl : Nat) (hs : Hist σ) (s : S σ) :
+    ∀ y ∈ (allEpochsSlot true limit before untl hs s).acc, y ∈ s.acc ∨ inWin before untl y = true := by
+  induction hs generalizing s with
+  | nil => intro y hy; exact Or.inl hy
+  | cons h hs ih =>
+    obtain ⟨e, lk⟩ := h
+    unfold allEpochsSlot
+    split
+    · exact ih s
+    · cases lk with
+      | notFound => exact ih s
+      | failed => intro y hy; exact Or.inl hy
+      | found recs =>
+        simp only
+        split
+        · exact epochLoopSlot_mem _ _ _ _ _ _
+        · intro y hy
+          rcases ih _ y hy with h | h
+          · exact epochLoopSlot_mem _ _ _ _ _ _ y h
+          · exact Or.inr h
+
+/-! ### completeness: every in-window entry within `limit`, on a history sorted by slot -/
+
+/-- slots do not increase along the history (newest first) -/
+def Desc (l : Tagged σ) : Prop := l.Pairwise fun a b => b.2.slot ≤ a.2.slot
+
+def finSlot (limit before untl : Nat) (s : S σ) (L : Tagged σ) : Tagged σ :=
+  if s.stop then s.acc else s.acc ++ (L.filter (inWin before untl)).take (limit - s.acc.length)
+
+theorem finSlot_stop (limit before untl : Nat) (s : S σ) (h : s.stop = true) (L : Tagged σ) :
+    finSlot limit before untl s L = s.acc := by
+  simp [finSlot, h]
+
+theorem finSlot_nil (limit before untl : Nat) (s : S σ) : finSlot limit before untl s [] = s.acc := by
+  unfold finSlot; split <;> simp
+
+theorem recLoopSlot_failed (fixed : Bool) (limit before untl e : Nat) (r : List (Tx σ)) (s : S σ) :
+    (recLoopSlot fixed limit before untl e r s).failed = s.failed := by
+  induction r generalizing s with
+  | nil => rfl
+  | cons x rest ih =>
+    unfold recLoopSlot
+    split
+    · rfl
+    · split
+      · rw [ih]
+      · split
+        · rfl
+        · rw [ih]
+
+theorem epochLoopSlot_failed (fixed : Bool) (limit before untl e : Nat) (recs : List (List (Tx σ))) (s : S σ) :
+    (epochLoopSlot fixed limit before untl e recs s).failed = s.failed := by
+  induction recs generalizing s with
+  | nil => rfl
+  | cons r rs ih =>
+    unfold epochLoopSlot
+    split
+    · rfl
+    · split
+      · rfl
+      · split
+        · exact recLoopSlot_failed ..
+        · rw [ih, recLoopSlot_failed]
+
+theorem recLoopSlot_sim (limit before untl e : Nat) (r : List (Tx σ)) (s : S σ) (L : Tagged σ)
+    (hs : s.stop = false) (hd : Desc (r.map (fun t => (e, t)) ++ L)) :
+    finSlot limit before untl (recLoopSlot true limit before untl e r s) L
+      = finSlot limit before untl s (r.map (fun t => (e, t)) ++ L) := by
+  induction r generalizing s with
+  | nil => rfl
+  | cons x rest ih =>
+    have hd' : Desc (rest.map (fun t => (e, t)) ++ L) := by
+      simp only [Desc, List.map_cons, List.cons_append, List.pairwise_cons] at hd; exact hd.2
+    have hle : ∀ y ∈ rest.map (fun t => (e, t)) ++ L, y.2.slot ≤ x.slot := by
+      simp only [Desc, List.map_cons, List.cons_append, List.pairwise_cons] at hd; exact hd.1
+    unfold recLoopSlot
+    split
+    · -- below the window: everything further on is older still
+      rename_i h
+      have hnil : (List.map (fun t => (e, t)) (x :: rest) ++ L).filter (inWin before untl) = [] := by
+        rw [List.filter_eq_nil_iff]
+        intro y hy
+        simp only [List.map_cons, List.cons_append, List.mem_cons] at hy
+        rcases hy with hy | hy
+        · subst hy; simp [inWin]; omega
+        · have := hle y hy; simp [inWin]; omega
+      rw [finSlot_stop _ _ _ _ rfl]
+      unfold finSlot
+      rw [hnil]
+      simp [hs]
+    · split
+      · -- at or above `before`: skipped
+        rename_i h1 h2
+        rw [ih s hs hd']
+        have : inWin before untl (e, x) = false := by simp [inWin]; omega
+        simp [finSlot, hs, this]
+      · rename_i h1 h2
+        have hin : inWin before untl (e, x) = true := by
+          have : ¬ before ≤ x.slot := fun hh => h2 ⟨rfl, hh⟩
+          simp [inWin]; omega
+        split
+        · rename_i h3
+          have : limit - s.acc.length = 0 := by omega
+          simp [finSlot, hs, this]
+        · rename_i h3
+          rw [ih { s with acc := s.acc ++ [(e, x)] } hs hd']
+          have hl : (s.acc ++ [(e, x)]).length = s.acc.length + 1 := by simp
+          simp only [finSlot, hs, hl, List.map_cons, List.cons_append, List.filter_cons, hin, if_true]
+          rw [show limit - s.acc.length = (limit - (s.acc.length + 1)) + 1 by omega]
+          simp
+
+theorem desc_append_right {A B : Tagged σ} (h : Desc (A ++ B)) : Desc B := by
+  unfold Desc at *
+  exact (List.pairwise_append.mp h).2.1
+
+theorem epochLoopSlot_sim (limit before untl e : Nat) (recs : List (List (Tx σ))) (s : S σ) (L : Tagged σ)
+    (hs : s.stop = false) (hd : Desc ((visible recs).map (fun t => (e, t)) ++ L)) :
+    finSlot limit before untl (epochLoopSlot true limit before untl e recs s) L
+      = finSlot limit before untl s ((visible recs).map (fun t => (e, t)) ++ L) := by
+  induction recs generalizing s with
+  | nil => rfl
+  | cons r rs ih =>
+    unfold epochLoopSlot
+    split
+    · rename_i h
+      have : limit - s.acc.length = 0 := by omega
+      simp [finSlot, hs, this]
+    · split
+      · rename_i h
+        simp [visible, h]
+      · rename_i h
+        have hv : visible (r :: rs) = r ++ visible rs := by simp [visible, h]
+        rw [hv, List.map_append, List.append_assoc] at hd ⊢
+        split
+        · rename_i hstop
+          rw [finSlot_stop _ _ _ _ hstop, ← finSlot_stop _ _ _ _ hstop ((visible rs).map (fun t => (e, t)) ++ L)]
+          exact recLoopSlot_sim _ _ _ _ _ _ _ hs hd
+        · rename_i hstop
+          have hstop' : (recLoopSlot true limit before untl e r s).stop = false := by
+            cases hh : (recLoopSlot true limit before untl e r s).stop with
+            | true => exact absurd hh hstop
+            | false => rfl
+          rw [ih _ hstop' (desc_append_right hd)]
+          exact recLoopSlot_sim _ _ _ _ _ _ _ hs hd
+
+theorem allEpochsSlot_sim (limit before untl : Nat) (hs : Hist σ) (s : S σ) (L : Tagged σ)
+    (hst : s.stop = false) (hd : Desc (flatten hs ++ L))
+    (hep : ∀ x ∈ flatten hs, x.1 * Generated.epochLen ≤ x.2.slot)
+    (hok : ∀ h ∈ hs, isFailed h.2 = false) :
+    finSlot limit before untl (allEpochsSlot true limit before untl hs s) L
+        = finSlot limit before untl s (flatten hs ++ L)
+    ∧ (allEpochsSlot true limit before untl hs s).failed = s.failed := by
+  induction hs generalizing s with
+  | nil => exact ⟨rfl, rfl⟩
+  | cons h hs ih =>
+    obtain ⟨e, lk⟩ := h
+    have hok' : ∀ h ∈ hs, isFailed h.2 = false := fun h hh => hok h (List.mem_cons_of_mem _ hh)
+    have hfl : flatten ((e, lk) :: hs) ++ L = (entries lk).map (fun t => (e, t)) ++ (flatten hs ++ L) := by
+      simp [flatten]
+    have hep' : ∀ x ∈ flatten hs, x.1 * Generated.epochLen ≤ x.2.slot := by
+      intro x hx; apply hep; simp only [flatten, List.flatMap_cons, List.mem_append]; exact Or.inr hx
+    have hepe : ∀ t ∈ entries lk, e * Generated.epochLen ≤ t.slot := by
+      intro t ht
+      have := hep (e, t) (by
+        simp only [flatten, List.flatMap_cons, List.mem_append]
+        exact Or.inl (List.mem_map.mpr ⟨t, ht, rfl⟩))
+      exact this
+    rw [hfl] at hd ⊢
+    have hd' : Desc (flatten hs ++ L) := desc_append_right hd
+    unfold allEpochsSlot
+    split
+    · -- the whole epoch lies above `before`
+      rename_i hskip
+      have hnil : ((entries lk).map (fun t => (e, t))).filter (inWin before untl) = [] := by
+        rw [List.filter_eq_nil_iff]
+        intro y hy
+        obtain ⟨t, ht, rfl⟩ := List.mem_map.mp hy
+        have h1 := hepe t ht
+        have h2 : before < e * Generated.epochLen := by
+          unfold epochOf at hskip
+          exact (Nat.div_lt_iff_lt_mul (by decide)).mp hskip
+        simp [inWin]; omega
+      have := ih s hst hd' hep' hok'
+      refine ⟨?_, this.2⟩
+      rw [this.1]
+      simp [finSlot, hst, List.filter_append, hnil]
+    · cases lk with
+      | notFound =>
+        have := ih s hst hd' hep' hok'
+        simpa [entries] using this
+      | failed =>
+        have := hok (e, .failed) (List.mem_cons_self)
+        simp [isFailed] at this
+      | found recs =>
+        simp only [entries] at hd ⊢
+        split
+        · rename_i hstop
+          refine ⟨?_, epochLoopSlot_failed ..⟩
+          rw [finSlot_stop _ _ _ _ hstop, ← finSlot_stop _ _ _ _ hstop (flatten hs ++ L)]
+          exact epochLoopSlot_sim _ _ _ _ _ _ _ hst hd
+        · rename_i hstop
+          have hstop' : (epochLoopSlot true limit before untl e recs s).stop = false := by
+            cases hh : (epochLoopSlot true limit before untl e recs s).stop with
+            | true => exact absurd hh hstop
+            | false => rfl
+          have := ih _ hstop' hd' hep' hok'
+          refine ⟨?_, ?_⟩
+          · rw [this.1]; exact epochLoopSlot_sim _ _ _ _ _ _ _ hst hd
+          · rw [this.2, epochLoopSlot_failed]
+
+end Slot
 
 end Paging
